@@ -239,6 +239,39 @@ def c09_scenario(par, Y, method, T=5):
     return body
 
 
+def c09_scenario_two_pops(par, method, T=5):
+    """One scenario overwrites the same parameter in two populations from different years (Y_A < Y_B): adding the later overwrite
+    leaves everything before Y_B as in the run with the earlier overwrite only"""
+
+    def body(env):
+        import atomica.scenarios as ascn
+
+        am, ap, au, apar, afp = mr.modules()
+        P = project("M10", T, 0.25, pops=2)
+        F = P.framework
+        YA, YB = 2000.25, 2000.75
+        s1, s2 = _session(env)
+        with s1, s2:
+            parset = copy.deepcopy(P.parsets[0])
+            mr.symbolize_parset(env, parset, F, comps=False)
+            m0 = am.Model(P.settings, F, P.parsets[0])
+            parset.initialization = mr.symbolic_state(env, m0)
+            ya = [env.real("scenA_y0", 0, 1), env.real("scenA_y1", 0, 1)]
+            yb = [env.real("scenB_y0", 0, 1), env.real("scenB_y1", 0, 1)]
+            arr = lambda v: env.array(v) if env.symbolic else np.array([float(x) for x in v])
+            only_a = ascn.ParameterScenario(name="a", interpolation=method)
+            only_a.scenario_values[par] = {"pop_0": {"t": [YA, YA + 0.5], "y": arr(ya)}}
+            both = ascn.ParameterScenario(name="ab", interpolation=method)
+            both.scenario_values[par] = {"pop_0": {"t": [YA, YA + 0.5], "y": arr(ya)}, "pop_1": {"t": [YB, YB + 0.25], "y": arr(yb)}}
+            psA, psB = only_a.get_parset(parset, P), both.get_parset(parset, P)
+            tv = [float(t) for t in P.settings.tvec]
+            limit = len([t for t in tv if t < YB])
+            A, B = run_pair(env, am, lambda: mr.build_model(env, P.settings, F, psA), lambda A_: mr.build_model(env, P.settings, F, psB), 0, limit, "before_second_population_starts", "scenario2[%s;%s]" % (par, method))
+            compare_rest(env, am, A, B, [(i, i) for i in range(limit)], "before_second_population_starts", "scenario2[%s;%s]" % (par, method))
+
+    return body
+
+
 def c09_extension(name, T=4, extra=2, with_programs=False, scenario=None):
     """Extending the simulation end year does not change earlier outputs (scenario: a linear parameter scenario on `scenario` with
     one point inside the short run and one beyond its end but inside the extended run)"""
@@ -285,7 +318,7 @@ def c09_extension(name, T=4, extra=2, with_programs=False, scenario=None):
 # ---------------------------------------------------------------------------------------------------------------
 
 
-def c10_restart(name, j, T=5, with_programs=False, chain=False, pops=1, transfers=0, dt=0.25):
+def c10_restart(name, j, T=5, with_programs=False, chain=False, pops=1, transfers=0, dt=0.25, durs=None):
     """Run A from a symbolic state; save state at index j into the parset; run B from t_j: B[i] == A[j+i]"""
 
     def body(env):
@@ -293,7 +326,7 @@ def c10_restart(name, j, T=5, with_programs=False, chain=False, pops=1, transfer
         import atomica.project as aproj
 
         am, ap, au, apar, afp = mr.modules()
-        P = project(name, T, dt, pops=pops, transfers=transfers)
+        P = project(name, T, dt, pops=pops, transfers=transfers, durs=durs)
         F = P.framework
         s1, s2 = _session(env)
         with s1, s2:
@@ -684,6 +717,9 @@ def specs(prop, tier):
             for method in ("linear", "previous"):
                 for Y in ((2000.5,) if q else (2000.5, 2000.6)):
                     out.append(("scenario[%s;%s;Y=%g]" % (par, method, Y), c09_scenario, dict(par=par, Y=Y, method=method)))
+        out.append(("scenario[beta;linear;two populations starting in different years]", c09_scenario_two_pops, dict(par="beta", method="linear")))
+        if not q:
+            out.append(("scenario[foi;previous;two populations starting in different years]", c09_scenario_two_pops, dict(par="foi", method="previous")))
         out.append(("extension[M10]", c09_extension, dict(name="M10")))
         out.append(("extension[M12;programs]", c09_extension, dict(name="M12", with_programs=True)))
         out.append(("extension[M10;linear scenario on beta with a point beyond the short end]", c09_extension, dict(name="M10", scenario="beta")))
@@ -693,6 +729,7 @@ def specs(prop, tier):
         out.append(("restart[M1;j=2]", c10_restart, dict(name="M1", j=2)))
         out.append(("restart[M4;j=1]", c10_restart, dict(name="M4", j=1)))
         out.append(("restart[M1;j=3;dt=0.1]", c10_restart, dict(name="M1", j=3, dt=0.1)))
+        out.append(("restart[M7;j=2;duration of one step (single row)]", c10_restart, dict(name="M7", j=2, durs=(0.25,))))
         out.append(("restart[M7;j=2;chain]", c10_restart, dict(name="M7", j=2, chain=True, T=6)))
         out.append(("restart[M8;j=2]", c10_restart, dict(name="M8", j=2)))
         out.append(("restart[M12;j=2;programs]", c10_restart, dict(name="M12", j=2, with_programs=True)))
